@@ -53,7 +53,7 @@ def stack(b: Builder, npre: int, npost: int, nsnap: int, foreign_at: Sequence[in
     for _ in range(npre):
         decos.append({"d": "require", "c": b.new("pre")})
     for pos in sorted(foreign_at, reverse=True):
-        decos.insert(min(pos, len(decos)), {"d": "foreign", "c": 0})
+        decos.insert(min(pos, len(decos)), {"d": "foreign" if pos % 2 == 0 else "foreign_bare", "c": 0})
     return decos
 
 
@@ -112,14 +112,14 @@ def fam_inv_lists(tier: str, rng: random.Random) -> Iterator[dict]:
 def fam_stacks(tier: str, rng: random.Random) -> Iterator[dict]:
     """C14/C19: decorator stacks on one function: contract decorators separated by foreign functools.wraps
     decorators, snapshots at every position (also before any postcondition), duplicate snapshot names."""
-    items = ["require", "ensure", "snapshot", "foreign"]
+    items = ["require", "ensure", "snapshot", "foreign", "foreign_bare"]
     for n in range(1, 5 if tier == "quick" else 6):
         for combo in itertools.product(items, repeat=n):
             b = Builder()
             decos = []
             for d in combo:
-                if d == "foreign":
-                    decos.append({"d": "foreign", "c": 0})
+                if d in ("foreign", "foreign_bare"):
+                    decos.append({"d": d, "c": 0})
                 elif d == "snapshot":
                     decos.append({"d": "snapshot", "c": b.new("snap", name=1 if rng.random() < 0.7 else 2)})
                 else:
@@ -200,7 +200,7 @@ def fam_async_members(tier: str, rng: random.Random) -> Iterator[dict]:
     import copy
     pool = [h for h in fam_hier_small(tier, rng)]
     pool += [h for h in fam_inv_lists(tier, rng)]
-    pool += [h for h in fam_hier(tier, rng) if all(m["kind"] == "fn" and not any(d["d"] == "foreign" for d in m["decos"])
+    pool += [h for h in fam_hier(tier, rng) if all(m["kind"] == "fn" and not any(d["d"].startswith("foreign") for d in m["decos"])
                                                    for c in h["cls"] for m in c["members"])]
     if tier == "quick":
         pool = rng.sample(pool, min(len(pool), 350))
@@ -300,7 +300,7 @@ def fam_recreated(tier: str, rng: random.Random) -> Iterator[dict]:
     shows the contracts of the original once, and the original (and every other class) stays as it was."""
     import copy
     pool = [h for h in fam_hier_small(tier, rng)] + [h for h in fam_inv_lists(tier, rng)]
-    pool += [h for h in fam_hier(tier, rng) if not any(d["d"] == "foreign" for c in h["cls"] for m in c["members"]
+    pool += [h for h in fam_hier(tier, rng) if not any(d["d"].startswith("foreign") for c in h["cls"] for m in c["members"]
                                                        for d in m["decos"])]
     if tier == "quick":
         pool = rng.sample(pool, min(len(pool), 300))
